@@ -70,6 +70,32 @@ type WriteEvent struct {
 	Instr   ssa.Instruction
 	Targets locSet // locations written (a write at (o,p) covers every cell under p)
 	What    string
+	// Init: the address written is derived, inside this very function, from an allocation made by this
+	// activation (a constructor filling in the object it just allocated).
+	Init bool
+}
+
+// localAllocRoot reports whether address/slice value v is derived from an allocation instruction of its own function.
+func localAllocRoot(v ssa.Value) bool {
+	for i := 0; i < 20; i++ {
+		switch x := v.(type) {
+		case *ssa.FieldAddr:
+			v = x.X
+		case *ssa.IndexAddr:
+			v = x.X
+		case *ssa.Slice:
+			v = x.X
+		case *ssa.ChangeType:
+			v = x.X
+		case *ssa.Convert:
+			v = x.X
+		case *ssa.Alloc, *ssa.MakeSlice, *ssa.MakeMap:
+			return true
+		default:
+			return false
+		}
+	}
+	return false
 }
 
 // ModRef is the analysis state.
@@ -599,6 +625,9 @@ func (m *ModRef) transfer(fn *ssa.Function, in ssa.Instruction) {
 		addrs := m.ptsOf(x.Addr)
 		m.storeTo(addrs, m.ptsOf(x.Val), x.Val.Type())
 		m.recordWrite(x, addrs, "store")
+		if w := m.Writes[x]; w != nil {
+			w.Init = localAllocRoot(x.Addr)
+		}
 	case *ssa.Phi:
 		for _, e := range x.Edges {
 			m.addAll(x, m.ptsOf(e))
@@ -752,6 +781,9 @@ func (m *ModRef) call(fn *ssa.Function, c ssa.CallInstruction) {
 				}
 			}
 			m.recordWrite(c, dst, "copy")
+			if w := m.Writes[c]; w != nil {
+				w.Init = localAllocRoot(cc.Args[0])
+			}
 		case "delete":
 			m.recordWrite(c, elems(m.ptsOf(cc.Args[0])), "delete")
 		case "clear":
@@ -1125,6 +1157,57 @@ func (m *ModRef) GlobalWrites() []ExtWrite {
 		}
 	}
 	return out
+}
+
+// GlobalReachWrites lists writes (outside package initialisers) to memory reachable from a package-level
+// variable of the library through any chain of references: a slice header copied out of a package variable
+// still points at shared backing storage.
+func (m *ModRef) GlobalReachWrites() []ExtWrite {
+	owner := map[*Obj]*Obj{}
+	for g, o := range m.globObj {
+		if g.Pkg == nil || !core.IsLibraryPkg(g.Pkg.Pkg.Path()) {
+			continue
+		}
+		for l := range m.reachableLocs(locSet{Loc{o, ""}: {}}) {
+			// only storage allocated by a package initialiser itself is certainly a package-lifetime singleton;
+			// allocation sites inside constructors called from init are shared abstractly with every other
+			// instance they create and would drown the query in false reports
+			if l.O != o && l.O.Kind == ObjAlloc && l.O.Fn != nil && isInitFn(l.O.Fn) {
+				if _, ok := owner[l.O]; !ok {
+					owner[l.O] = o
+				}
+			}
+		}
+	}
+	var out []ExtWrite
+	var ins []ssa.Instruction
+	for in := range m.Writes {
+		ins = append(ins, in)
+	}
+	sort.Slice(ins, func(i, j int) bool { return ins[i].Pos() < ins[j].Pos() })
+	for _, in := range ins {
+		w := m.Writes[in]
+		top := w.Fn
+		for top.Parent() != nil {
+			top = top.Parent()
+		}
+		if top.Name() == "init" || strings.HasPrefix(top.Name(), "init#") || w.Init {
+			continue
+		}
+		for t := range w.Targets {
+			if g, ok := owner[t.O]; ok {
+				out = append(out, ExtWrite{w, Loc{g, "=>" + t.String()}, nil})
+			}
+		}
+	}
+	return out
+}
+
+func isInitFn(fn *ssa.Function) bool {
+	for fn.Parent() != nil {
+		fn = fn.Parent()
+	}
+	return fn.Name() == "init" || strings.HasPrefix(fn.Name(), "init#")
 }
 
 // ResultAliases lists external locations of entry reachable from its results (empty = results are fresh).
